@@ -76,7 +76,7 @@ def pdb_atom_line(serial, ln):
     return "".join(col)
 
 
-def emit_pdb(lines):
+def emit_pdb(lines, serial0=0):
     """Abstract lines -> PDB text.  MODEL/ENDMDL bracket every model when the table has more than
     one model or its only model is not numbered 1; TER after every chain; END."""
     models = []
@@ -86,7 +86,7 @@ def emit_pdb(lines):
     bracket = len(models) > 1 or (models and models[0] != 1)
     out = ["HEADER    RNA                                     01-JAN-00   XXXX              ",
            "REMARK   2 RESOLUTION. NOT APPLICABLE.                                          "]
-    serial = 0
+    serial = serial0       # big entries reach five-digit serials: "HETATM10000" has no blank after the record name
     cur_model = None
     prev = None
 
@@ -223,7 +223,7 @@ def project_atoms(atoms):
 
 def case_text(case):
     if case["fmt"] == "pdb":
-        return emit_pdb(case["lines"])
+        return emit_pdb(case["lines"], case.get("serial0", 0))
     cols = list(_CIF_COLS)
     if case.get("colseed"):
         random.Random(case["colseed"]).shuffle(cols)
@@ -586,11 +586,13 @@ def c08_cases(tables, colshuffle_every=5):
         for fmt in fmts:
             n = len(cases)
             colseed = (n + 1) if (fmt == "cif" and n % colshuffle_every == 0) else 0
+            # every third PDB rendering numbers its records from just below 10000 (five-digit serials)
+            serial0 = (9999 - len(lines) // 2) if (fmt == "pdb" and len(cases) % 3 == 0) else 0
             for req in [0] + models:
                 cases.append({"id": f"{t['tid']}-{fmt}-r{req}", "kind": "read", "fmt": fmt, "req": req, "lines": lines,
-                              "colseed": colseed})
+                              "colseed": colseed, "serial0": serial0})
             cases.append({"id": f"{t['tid']}-{fmt}-parse", "kind": "parse", "fmt": fmt, "req": 0, "lines": lines,
-                          "colseed": colseed})
+                          "colseed": colseed, "serial0": serial0})
     return cases
 
 
